@@ -26,6 +26,10 @@ THEOREMS = {
     'sizing_same': ('getSizing_same', ['C08']), 'sizing_largest': ('getSizing_largest', ['C08']),
     'sizing_smallest': ('getSizing_smallest', ['C08']), 'sizing_optimal': ('getSizing_optimal', ['C07', 'C08', 'C09']),
     'needs_pyint': ('needsPyInt', ['C19', 'C09']), 'mul_needs_pyint': ('mulNeedsPyInt', ['C19']),
+    # rules of objects.py
+    'store_limits': ('storeLimits', ['C01', 'C02', 'C03', 'C05', 'C18']), 'resize_limits': ('resizeLimits', ['C02', 'C17']),
+    'nint_of': ('nintOf', ['C02', 'C06']), 'extended_prec': ('extendedPrec', ['C18']),
+    'rshift_expansion': ('rshiftExpansion', ['C14']), 'lshift_word': ('lshiftWord', ['C14']),
 }
 
 # theorems of Tie.lean that restate a property theorem about the generated rule: name -> (tie theorems used, properties)
@@ -81,6 +85,12 @@ def _grid_cmd(thm):
     if thm == 'dot_size':
         return head + body(['for x in fmts', 'for y in fmts', 'for k in [1, 2, 3, 4, 5, 8, 9]'], 'Gen.%s %s (k : Nat)' % (gen, a2),
                            'fmtT (dotFmt x y k)', 's!" k={k}"') + tail
+    if thm in ('store_limits', 'resize_limits'):
+        return head + body(['for x in fmts'], 'Gen.%s %s' % (gen, a1), '(x.hi, x.lo)', '""', ys='x') + tail
+    if thm == 'nint_of':
+        return head + body(['for x in fmts'], 'Gen.%s %s' % (gen, a1), 'x.nint', '""', ys='x') + tail
+    if thm == 'extended_prec':
+        return head + body(['for x in fmts'], 'Gen.%s %s' % (gen, a1), 'decide (64 ≤ x.nword)', '""', ys='x') + tail
     if thm in ('needs_pyint', 'mul_needs_pyint'):
         model = '_root_.Fxp.addNeedsPyInt' if thm == 'needs_pyint' else '_root_.Fxp.mulNeedsPyInt'
         return head + body(['for x in fmts', 'for y in fmts', 'for F in [(0 : Int), 1, 7, 31, 40, 62, 63, 64, 65]'],
@@ -134,7 +144,7 @@ def check(repo=None):
             pass
     imports, pre, blocks, tail = _split_tie()
     gen_body = '\n'.join(l for l in text.split('\n') if not l.startswith('import '))
-    order = [t for t in blocks if t in THEOREMS and t not in untrans]
+    order = [t for t in blocks if (t in THEOREMS and t not in untrans) or (t not in THEOREMS and t not in TRANSFER)]     # helpers stay
 
     def compose(names, evals=''):
         return ('\n'.join(['import FxpVerif.Model.Reduce'] + imports) + '\n' + gen_body + '\n' + pre + '\n' +
@@ -176,17 +186,20 @@ def check(repo=None):
     if '<generated definitions>' in failed:
         # the generated text itself does not elaborate: nothing can be said about any rule
         for t in order:
-            res['status'][t] = 'broken'
+            if t in THEOREMS:
+                res['status'][t] = 'broken'
         res['log'] = out[-3000:]
     else:
         for t in order:
-            res['status'][t] = 'broken' if t in failed else 'proved'
+            if t in THEOREMS:
+                res['status'][t] = 'broken' if t in failed else 'proved'
         res['log'] = '\n'.join(l for l in out.split('\n') if ': error' in l)[:3000] if failed else ''
         if failed:
             good = [t for t in order if t not in failed]
+            failed = {t for t in failed if t in THEOREMS}
             evals = 'open Fxp\n' + _GRID2 + ''.join(_grid_cmd(t) for t in sorted(failed))
             rc2, out2 = run(compose(good, evals), 'grid')
-            res['grid_log'] = out2[-2000:]
+            res['grid_log'] = '\n'.join(l for l in out2.split('\n') if ': error' in l)[:1500]
             for m in re.finditer(r'DIFF (\w+) (.*)', out2):
                 res['diffs'].setdefault(m.group(1), []).append(m.group(2))
     for t in untrans:
